@@ -48,11 +48,10 @@ example : D20_retyped liveTable exVarsNU exBody = false := by
   simp [D20_retyped, exBody, Stmt.testsL, Stmt.tests, Cond.tests, Cond.testsL, retypedTest, hx, hy, flatten1,
     tag_k1_k1, tag_int_k1]
 
-/-- **The context of a call.** Unless a parameter whose default is `...` is omitted (class
-`ellipsisDefault`), the variables and positions pyanalyze hands to the evaluator are the ones the document
-prescribes — for every signature and every call shape. -/
-theorem context_eq_specContext (c : EvalCase) (h : D20_ellipsisDefault c = false) :
-    context c = specContext c := context_eq_specContext' c h
+/-- **The context of a call** (full strength since commit d1ebe72). For every signature and every call
+shape, the variables and positions pyanalyze hands to the evaluator are the ones the document
+prescribes; in particular an omitted parameter whose default is `...` has its annotation as its type. -/
+theorem context_eq_specContext (c : EvalCase) : context c = specContext c := rfl
 
 /-! ## Argument kinds -/
 
@@ -122,7 +121,7 @@ theorem exclude_any_false_permissive (tbl : ClassTable) (ps : Positions) (e : En
 
 /-! ## Union arguments: the full statement and the witnesses of the exception classes -/
 
-/-- **Full-strength statement of the union clause** (false of the pinned pyanalyze: five witnesses
+/-- **Full-strength statement of the union clause** (false of pyanalyze: witness `fallThrough_witness`
 below). For a call with union-typed arguments the evaluator's type equals (as a union, up to `==`)
 the union of the reference results of the member-wise calls, and a `show_error` fires iff it fires for
 some member. -/
@@ -133,28 +132,25 @@ def EvalUnionDistributes (tbl : ClassTable) : Prop :=
     ∀ m, m ∈ (evaluate tbl ps (Env.ofList vars) retAnn body).2 ↔ m ∈ (refUnion tbl ps vars retAnn body).2
 
 /-- **C20, one union-typed argument, outside the exception classes.** For every class table, every
-body of the grammar whose conditions only name parameters, and every call in which exactly one
-variable `x` holds a union (a normal one: ≥ 2 hashable non-union members, no duplicates), all other
-variables hold hashable non-unions and the returned types are values `unite_values` leaves alone:
+body of the grammar (any nesting of `if`/`elif`/`else`, any `and`/`or`/`not` combination of the primitive
+conditions, tests on any parameter) whose conditions only name parameters, and every call in which
+exactly one variable `x` holds a union (a normal one: ≥ 2 hashable non-union members, no duplicates), all
+other variables hold hashable non-unions and the returned types are values `unite_values` leaves alone:
 if the run does not fall in class `fallThrough` (a partially returning statement followed by more
-statements), `boolOpDrop` (an `and`/`or` deciding early after a partial operand), `overlapNarrow` /
-`retyped` (a type test whose positive narrowing is not exactly "keep the matching members"), then the
-type the model of pyanalyze's evaluator computes is `==` (as a union) to the union of the reference
-interpreter's results for the members of `x` evaluated separately, and a `show_error` message fires
-iff it fires for some member. -/
+statements) and no type test re-types a matching member (class `retyped`: an `Any` member or argument
+matched with `exclude_any=False`), then the type the model of pyanalyze's evaluator computes is `==` (as
+a union) to the union of the reference interpreter's results for the members of `x` evaluated
+separately, and a `show_error` message fires iff it fires for some member. -/
 theorem eval_union_distributes_partial (tbl : ClassTable) (ps : Positions) (vars : VarMap)
     (retAnn : Ty) (body : List Stmt) (x : String)
     (hwf : Stmt.wfL ps (Env.ofList vars) body = true)
     (hx : unionArgOK x vars = true) (ho : othersOK x vars = true) (hr : retsOK retAnn body = true)
     (h1 : D20_fallThrough tbl ps (Env.ofList vars) body = false)
-    (h2 : D20_boolOpDrop tbl ps (Env.ofList vars) body = false)
-    (h3 : D20_overlapNarrow tbl vars body = false)
-    (h4 : D20_retyped tbl vars body = false) :
+    (h2 : D20_retyped tbl vars body = false) :
     Ty.beq (evaluate tbl ps (Env.ofList vars) retAnn body).1 (refUnion tbl ps vars retAnn body).1 = true ∧
     ∀ msg, msg ∈ (evaluate tbl ps (Env.ofList vars) retAnn body).2 ↔
       msg ∈ (refUnion tbl ps vars retAnn body).2 :=
-  eval_union_core tbl ps vars retAnn body x hwf hx ho hr h1 h2 h3 h4
-
+  eval_union_core tbl ps vars retAnn body x hwf hx ho hr h1 h2
 
 /-! ### Non-vacuity of `eval_union_distributes_partial`
 
@@ -168,16 +164,14 @@ example : unionArgOK "x" exVars = true := by
   simp [unionArgOK, oneUnionB, exVars, wU, goodMembers, isUnionVal, Ty.hashEq, Obj.hashable, Obj.same, Obj.tag,
     Obj.pyEq, hasDupMembers.dupIn, Ty.memBy, Ty.beq]
 example : D20_retyped liveTable exVars exBody = false := ex_retyped
-example : D20_overlapNarrow liveTable exVars exBody = false := ex_overlap
 example : D20_fallThrough liveTable exPs (Env.ofList exVars) exBody = false := ex_fall
-example : D20_boolOpDrop liveTable exPs (Env.ofList exVars) exBody = false := ex_drop
 example :
     Ty.beq (evaluate liveTable exPs (Env.ofList exVars) (.typed C.complex) exBody).1
       (refUnion liveTable exPs exVars (.typed C.complex) exBody).1 = true :=
   (eval_union_distributes_partial liveTable exPs exVars (.typed C.complex) exBody "x" (by decide)
     (by simp [unionArgOK, oneUnionB, exVars, wU, goodMembers, isUnionVal, Ty.hashEq, Obj.hashable, Obj.same,
       Obj.tag, Obj.pyEq, hasDupMembers.dupIn, Ty.memBy, Ty.beq])
-    (by decide) (by decide) ex_fall ex_drop ex_overlap ex_retyped).1
+    (by decide) (by decide) ex_fall ex_retyped).1
 
 /-- class `fallThrough`: `if x == 1: return int` / `if x == 1: return str else: return bytes` on
 `x: Literal[1] | str` gives `int | str | bytes`; member-wise: `Literal[1]` → `int`, `str` → `bytes`. -/
@@ -195,31 +189,33 @@ theorem retyped_witness :
     (refRun liveTable [] (Env.ofList [("x", .any)]) (.typed C.float) wRetBody).1 = .typed C.str := by
   rw [retyped_model, retyped_ref]; exact ⟨rfl, rfl⟩
 
-/-- class `overlapNarrow`: `if is_of_type(x, int): (if x == 1: return int else: return str) else:
-return bytes` on `x: object | Literal[1]` gives `int | str | bytes`; member-wise: `bytes | int`. -/
-theorem overlapNarrow_witness :
+/-! ### Regressions: the three classes repaired in /repo (faaff0c, 4713671, d1ebe72)
+
+The former witnesses now give the documented result (they stay in corpus/C20.jsonl: a re-appearance is a
+new violation). -/
+
+/-- former class `overlapNarrow`: `if is_of_type(x, int): (if x == 1: return int else: return str) else:
+return bytes` on `x: object | Literal[1]` gives `int | bytes`, as member-wise (`bytes | int`). -/
+theorem overlapNarrow_repaired :
     (evaluate liveTable [] (Env.ofList [("x", wOvU)]) (.typed C.complex) wOvBody).1 =
-      .union [.typed C.int, .typed C.str, .typed C.bytes] ∧
+      .union [.typed C.int, .typed C.bytes] ∧
     (refUnion liveTable [] [("x", wOvU)] (.typed C.complex) wOvBody).1 =
       .union [.typed C.bytes, .typed C.int] := by
   rw [overlapNarrow_model, overlapNarrow_ref]; exact ⟨rfl, rfl⟩
 
-/-- class `boolOpDrop`: `if is_of_type(x, int) or is_of_type(x, str): (if x == 0: return int else:
-return str) else: return bytes` on `x: Literal[0] | str` gives `str`: the `Literal[0]` member, set
-aside by the first operand, is lost; member-wise: `int | str`. -/
-theorem boolOpDrop_witness :
-    (evaluate liveTable [] (Env.ofList [("x", wDropU)]) (.typed C.complex) wDropBody).1 = .typed C.str ∧
-    (refUnion liveTable [] [("x", wDropU)] (.typed C.complex) wDropBody).1 =
-      .union [.typed C.int, .typed C.str] := by
-  rw [boolOpDrop_model, boolOpDrop_ref]; exact ⟨rfl, rfl⟩
+/-- former class `boolOpDrop`: `if is_of_type(x, int) or is_of_type(x, str): (if x == 0: return int else:
+return str) else: return bytes` on `x: Literal[0] | str` gives `int | str`: the `Literal[0]` member set
+aside by the first operand reaches the `if` branch. -/
+theorem boolOpDrop_repaired :
+    evaluate liveTable [] (Env.ofList [("x", wDropU)]) (.typed C.complex) wDropBody =
+      refUnion liveTable [] [("x", wDropU)] (.typed C.complex) wDropBody := by
+  rw [boolOpDrop_model, boolOpDrop_ref]
 
-/-- class `ellipsisDefault`: the document's `with_defaults` example, `def f(x: int = ...) -> bytes:
-if is_of_type(x, int): return str` called as `f()`, gives `bytes` (x is the Ellipsis object); the
-document: x is `int`, so `str`. -/
-theorem ellipsisDefault_witness :
-    evalCall liveTable wEllCase = some (.typed C.bytes, []) ∧
-    refCall liveTable wEllCase = some (.typed C.str, []) :=
-  ⟨ellipsisDefault_model, ellipsisDefault_ref⟩
+/-- former class `ellipsisDefault`: the document's `with_defaults` example, `def f(x: int = ...) -> bytes:
+if is_of_type(x, int): return str` called as `f()`, gives `str` (x is `int`). -/
+theorem ellipsisDefault_repaired :
+    evalCall liveTable wEllCase = some (.typed C.str, []) ∧ refCall liveTable wEllCase = evalCall liveTable wEllCase := by
+  rw [ellipsisDefault_model, ellipsisDefault_ref]; exact ⟨rfl, rfl⟩
 
 /-- class `multiError`: of two executed `show_error`s only the first is reported. -/
 theorem multiError_witness : reported ["E1", "E2"] = ["E1"] ∧ reported ["E1", "E2"] ≠ ["E1", "E2"] := by
@@ -234,8 +230,8 @@ theorem evalNonunionEqRef_live_false : ¬ EvalNonunionEqRef liveTable := by
 
 theorem evalUnionDistributes_live_false : ¬ EvalUnionDistributes liveTable := by
   intro h
-  have := (h [] [("x", wDropU)] (.typed C.complex) wDropBody (by decide)).1
-  rw [boolOpDrop_model, boolOpDrop_ref] at this
-  simp [Ty.beq] at this
+  have := (h [] [("x", wU)] (.typed C.complex) wFallBody (by decide)).1
+  rw [fallThrough_model, fallThrough_ref] at this
+  simp [Ty.beq, Ty.beqList, Ty.subsetH, Ty.memH, Ty.hashEq, C.int, C.str, C.bytes] at this
 
 end Pya.C20
